@@ -127,7 +127,9 @@ def dependents(ctx, d1):
                     if storage.node_has(nd, _views_refreshed):
                         return True
                     # a loop over the view container whose every iteration re-points its view (no iteration <=> no view)
-                    if nd.kind == 'for' and isinstance(nd.ast, ast.For) and src(nd.ast.iter).startswith('self._streams'):
+                    if nd.kind == 'for' and isinstance(nd.ast, ast.For) and (src(nd.ast.iter).startswith('self._streams') or any(
+                            isinstance(x, ast.Call) and src(x.func) == 'getattr' and len(x.args) >= 2 and src(x.args[0]) == 'self'
+                            and isinstance(x.args[1], ast.Constant) and x.args[1].value == '_streams' for x in ast.walk(nd.ast.iter))):
                         return any(_views_refreshed(x) for st_ in nd.ast.body for x in ([st_] + ([st_.value] if isinstance(st_, ast.Expr) else [])))
                     return False
 
